@@ -174,6 +174,20 @@ def e_sur_test(p):
     N, T = p["N"], p["T"]
     kw = dict(dtype=p.get("dtype", "float64"), order=p.get("order", "C"),
               noncontig=p.get("noncontig", False))
+    if p.get("T_first"):
+        # a call history in ONE process: the same N (and bins) with a
+        # shorter series first (buffers kept between calls must not be
+        # reused for a longer one)
+        o1 = arr((N, p["T_first"]), **kw)
+        s1 = arr((N, p["T_first"]), kind="sin", **kw)
+        try:
+            if p["which"] == "pearson":
+                Surrogates.test_pearson_correlation(o1, s1)
+            else:
+                Surrogates.test_mutual_information(
+                    o1, s1, n_bins=p.get("bins", 4))
+        except Exception:   # noqa
+            pass
     orig = arr((N, T), **kw)
     sur = arr((p.get("N2", N), p.get("T2", T)), kind="sin", **kw)
     if p["which"] == "pearson":
